@@ -1032,6 +1032,12 @@ func (ex *Exec) applyContract(st *State, cfi *FuncInfo, cfc *FuncContract, recv 
 			closure = a
 			continue
 		}
+		if (a.GoT == nil || isUntypedNil(a.GoT)) && i < cfi.Sig.Params().Len() && a.Loc == nil && a.T != nil {
+			// an untyped constant (nil literal): the contract sees it at the parameter's type
+			b := *a
+			b.GoT = cfi.Sig.Params().At(i).Type()
+			a = &b
+		}
 		names[pns[i]] = a
 	}
 	// pointer-to-local args: bind *name
@@ -1799,4 +1805,9 @@ func litCallsParam(ex *Exec, lit *ast.FuncLit, param string) bool {
 		return true
 	})
 	return found
+}
+
+func isUntypedNil(t types.Type) bool {
+	b, ok := t.(*types.Basic)
+	return ok && b.Kind() == types.UntypedNil
 }
